@@ -203,6 +203,29 @@ def do_replay(mod, path):
   return 0
 
 
+def _start_watchdog(cid, tier):
+  """The whole run has a wall-clock limit, far above anything the unchanged tree needs (quick: minutes, thorough: under
+  an hour per check): code under test that wedges the *main* process (a lock taken twice, a finalizer that never returns)
+  must end in a report, not in a hang."""
+  import json
+  import threading
+  limit = float(os.environ.get('VERIF_RUN_TIMEOUT', 1800 if tier == 'quick' else 4 * 3600))
+
+  def fire():
+    rdir = os.path.join(VERIF, 'replays', cid)
+    os.makedirs(rdir, exist_ok=True)
+    path = os.path.join(rdir, 'stalled.json')
+    with open(path, 'w') as fh:
+      json.dump({'property': cid, 'sig': 'exploration_stalled', 'msg': 'the run did not finish within %.0f s' % limit}, fh)
+    sys.stdout.write('VIOLATION property=%s replay=%s\n  sig=exploration_stalled\n  the %s run did not finish within %.0f s: '
+                     'the code under test wedged the explorer\n' % (cid, path, tier, limit))
+    sys.stdout.flush()
+    os._exit(1)
+  t = threading.Timer(limit, fire)
+  t.daemon = True
+  t.start()
+
+
 def main(argv=None):
   ap = argparse.ArgumentParser()
   ap.add_argument('id')
@@ -225,6 +248,7 @@ def main(argv=None):
 
   ctx = Ctx(a.tier, seed, a.jobs)
   t0 = time.time()
+  _start_watchdog(cid, a.tier)
   try:
     if hasattr(mod, 'run'):
       res = mod.run(ctx)
